@@ -10,6 +10,7 @@ CONSTANTS
   Plus = "add"
   Times = "mul"
   LeafKind = "lin"
+  Param = FALSE
   Tag = "psp_model"
 INVARIANT Inv_ModelCorrect
 INVARIANT Inv_IntractableOnlyIfIncomparable
